@@ -432,6 +432,15 @@ def _in_gamut_agreement(vc, cfg, d, f, v, xs, blk, r, xr, bs, where=None, fi=Non
         for j in range(nf):
             vc.gibbs(tx[j], B[r, j])
         vc.lemma(f"lemma:hit&box=>rowfeas(x0)[{r}]", vc.implies(vc.and_(in0, hit), feas0))
+        # cuts for the conclusion: obj(X_r) - floor == sum_j w_j g_j with g_j = (t_j - B_j) - B_j (log t_j - log B_j) >= 0 (Gibbs), so
+        # obj(X_r) <= floor forces every w_j g_j, hence every g_j, to 0 and t_j == B_j by the equality case
+        Wr = d["W"][r]
+        g = [(tx[j] - B[r, j]) - B[r, j] * (vc.log(tx[j]) - vc.log(B[r, j])) for j in range(nf)]
+        vc.lemma(f"lemma:obj(X_r)-floor==sum w*g[{r}]", vc.eq(ox - floor, sum(Wr[j] * g[j] for j in range(nf))))
+        for j in range(nf):
+            vc.lemma(f"lemma:w*g>=0[{r},{j}]", vc.implies(vc.and_(vc.gt(tx[j], 0), vc.gt(B[r, j], 0)), vc.ge(Wr[j] * g[j], 0)))
+        for j in range(nf):
+            vc.lemma(f"lemma:hit&box=>w*g==0[{r},{j}]", vc.implies(vc.and_(in0, hit), vc.eq(Wr[j] * g[j], 0)))
     else:
         vc.lemma(f"lemma:T(x0)==B=>obj(x0)==0[{r}]", vc.implies(hit, vc.eq(o0, 0)))
         vc.lemma(f"lemma:hit&box=>rowfeas(x0)[{r}]", vc.implies(vc.and_(in0, hit), feas0))
